@@ -76,7 +76,7 @@ def run_property(prop, tier, seed, jobs=None, only=None, verbose=False):
             # unbounded-arity proof is then not available and everything else this family
             # derived from the invariant is void; the bounded-arity families decide
             bad_inv = [o["name"] for o in r["obls"] if "/loop-invariant:" in o["name"] and o["status"] != "proved"]
-            if bad_inv:
+            if bad_inv and not os.environ.get("PYVC_G_STRICT"):
                 r = dict(r, error=f"unsupported: sidecar loop invariant not established for the current loop ({bad_inv[0].split('/', 1)[1]})", obls=[])
             else:
                 # symbolic-arity obligations are discharged with hand-instantiated quantified
@@ -84,7 +84,7 @@ def run_property(prop, tier, seed, jobs=None, only=None, verbose=False):
                 # the ground instances need not be a model of the facts).  Only the proofs that
                 # go through are used; otherwise the bounded-arity families decide the method.
                 open_ = [o["name"] for o in r["obls"] if o["status"] != "proved"]
-                if open_ and not os.environ.get("PYVC_G_STRICT"):
+                if open_ and not bad_inv and not os.environ.get("PYVC_G_STRICT"):
                     r = dict(r, error=f"unsupported: no unbounded-arity proof found ({open_[0].split('/', 1)[1]} not discharged)", obls=[])
         if r["error"] and r.get("optional") and r["error"].startswith("unsupported"):
             notes.append(f"NOTE {prop} {r['family']}: unbounded-arity proof not applicable to the current code shape "
